@@ -308,7 +308,9 @@ func checkC20(r *run, c *CloneCase) (CaseInfo, error) {
 
 		return ci, nil
 	}
-	// mutate one side, the other must not move
+	// mutate one side, the other must not move - nor may any sibling: a second clone of the
+	// original and a clone of the clone (copies must not meet in storage shared behind the scenes)
+	sibling, grandchild := orig.Clone(), cl.Clone()
 	target, other := orig, cl
 	if c.Side == "clone" {
 		target, other = cl, orig
@@ -321,6 +323,15 @@ func checkC20(r *run, c *CloneCase) (CaseInfo, error) {
 	ci.Nontrivial = true
 	if got := fullObs(other); got != before {
 		return ci, failf("mutation %q of the %s changed the other side:\n before: %s\n after:  %s", c.Mut, c.Side, before, got)
+	}
+	if got := fullObs(sibling); got != before {
+		return ci, failf("mutation %q of the %s changed a second clone of the original:\n before: %s\n after:  %s", c.Mut, c.Side, before, got)
+	}
+	if got := fullObs(grandchild); got != before {
+		return ci, failf("mutation %q of the %s changed a clone of the clone:\n before: %s\n after:  %s", c.Mut, c.Side, before, got)
+	}
+	if got := fullObs(other.Clone()); got != before {
+		return ci, failf("after mutation %q of the %s a new clone of the untouched side differs from it:\n untouched: %s\n new clone: %s", c.Mut, c.Side, before, got)
 	}
 	if fullObs(target) == before {
 		return ci, failf("harness bug: mutation %q had no observable effect on its own side", c.Mut)
@@ -396,7 +407,7 @@ func genCloneCase(t *rapid.T) *CloneCase {
 	return c
 }
 
-const ruleC20 = "C01's well-formed packets (built through the API, or obtained from Unmarshal so that all slices alias one wire buffer; nil and empty payload/CSRC) x one mutation {flip payload byte, change CSRC entry, flip a byte of an extension value through the slice GetExtension returns, SetExtension new/replace, DelExtension, scalar field, padding size} applied to the original or to the clone, or a different new extension set on BOTH sides; optionally the extension list is first emptied again with DelExtension (length 0, spare capacity); oracle: clone observably equal (all fields, ids, values, Marshal bytes), untouched side unchanged after the mutation; same for Header.Clone. Non-trivial = the mutation was applicable; distinct = FNV-64 of the JSON case"
+const ruleC20 = "C01's well-formed packets (built through the API, or obtained from Unmarshal so that all slices alias one wire buffer; nil and empty payload/CSRC) x one mutation {flip payload byte, change CSRC entry, flip a byte of an extension value through the slice GetExtension returns, SetExtension new/replace, DelExtension, scalar field, padding size} applied to the original or to the clone, or a different new extension set on BOTH sides; optionally the extension list is first emptied again with DelExtension (length 0, spare capacity); oracle: clone observably equal (all fields, ids, values, Marshal bytes), untouched side unchanged after the mutation, as are a second clone of the original and a clone of the clone taken before it, and a clone of the untouched side taken after it; same for Header.Clone. Non-trivial = the mutation was applicable; distinct = FNV-64 of the JSON case"
 
 func TestC20(t *testing.T) {
 	r := begin(t, "C20", "exploration", ruleC20)
